@@ -219,6 +219,95 @@ def _run_frontends(items):
     return out
 
 
+def cli_environment_faults(run):
+    """Failures that come from the environment rather than from the query: a missing input file, an output path that is a directory or lies in
+    a missing directory, a missing join table, an input that is not valid UTF-8.  Every one is outcome "error" for the CliOk monitor
+    (non-zero exit status, an `Error [...]` line on stderr)."""
+    d = tempfile.mkdtemp(prefix='rbqlverif_c13f_')
+    clis = []
+    try:
+        inp = os.path.join(d, 'in.csv')
+        with open(inp, 'w') as f:
+            f.write('a,1\nb,2\n')
+        bad = os.path.join(d, 'bad.csv')
+        with open(bad, 'wb') as f:
+            f.write(b'a,\xff\xfe\n')
+        os.mkdir(os.path.join(d, 'odir'))
+        base = ['--delim', ',', '--policy', 'quoted']
+        scenarios = [('missing-input', ['--query', 'select a1', '--input', os.path.join(d, 'nosuch.csv')]),
+                     ('output-is-directory', ['--query', 'select a1', '--input', inp, '--output', os.path.join(d, 'odir')]),
+                     ('output-in-missing-directory', ['--query', 'select a1', '--input', inp, '--output', os.path.join(d, 'nodir', 'o.csv')]),
+                     ('missing-join-table', ['--query', 'select a1, b1 join nosuch on a1 == b1', '--input', inp]),
+                     ('undecodable-input', ['--query', 'select a1', '--input', bad, '--encoding', 'utf-8']),
+                     ('control-ok', ['--query', 'select a1', '--input', inp])]
+        for name, args in scenarios:
+            rc, so, se = cli(base + args)
+            run.traces += 1
+            run.count(['clifault', name], nontrivial=True)
+            ok = name == 'control-ok'
+            clis.append({'tid': name, 'exit': rc, 'stdout_is_table': (so == 'a\nb\n') if ok else True, 'stderr_kinds': stderr_kinds(se), 'outcome': 'ok' if ok else 'error', 'stderr': se[:200]})
+    finally:
+        shutil.rmtree(d, ignore_errors=True)
+    rej = frontends.validate(run, 'cli', [{k: c[k] for k in ('tid', 'exit', 'stdout_is_table', 'stderr_kinds', 'outcome')} for c in clis], 'environment-faults')
+    for c in clis:
+        if c['tid'] in rej:
+            run.violation({'impl': 'py', 'frontend': 'cli', 'what': 'environment fault: run rejected by the CliOk monitor', 'scenario': c['tid'], 'exit': c['exit'], 'stderr': c['stderr'][:160]},
+                          {'kind': 'cli_fault', 'scenario': c['tid']})
+    run.sample({'cli_environment_fault': clis[0]})
+
+
+def _shared_names(items):
+    """Join cases with a header, both tables given the SAME column names (x1, x2): a.x1 and b.x1 must stay distinct columns in
+    query_table and in the pandas front-end.  The expectation is TLC's for the case; only the names of B's columns differ."""
+    mods = impl.load()
+    rbql, eng, rcsv, cu = mods
+    from rbql import rbql_pandas
+    import pandas as pd
+    out = []
+    for tid, case in items:
+        sigs = []
+        nruns = 0
+        c2 = dict(case, hdrB=list(case['hdrA'])[:len(case['hdrB'])])
+        ren = dict(zip(case['hdrB'], c2['hdrB']))
+        qtext = engine.render_query(c2, engine.Spelling(ec.case_key(case) + 'shared'), 'py')
+        exp = case['expect']
+        want_err = exp['err'][0]['cls'] if exp['err'] else None
+        want_hdr = [ren.get(h, h) for h in exp['hdr']] if exp['hashdr'] and exp['hdr'] else None
+        A = engine.table_py(case['A'])
+        B = engine.table_py(case['B'])
+        base = {'impl': 'py', 'query': qtext, 'shared_column_names': True}
+        res, names, err = [], [], None
+        try:
+            rbql.query_table(qtext, [list(r) for r in A], res, [], [list(r) for r in B], list(c2['hdrA']), list(c2['hdrB']), names)
+        except Exception as e:  # noqa
+            err = engine.project_error(eng, e)['cls']
+        nruns += 1
+        if (err or None) != (want_err or None):
+            sigs.append(dict(base, frontend='query_table', what='outcome', got=err, want=want_err))
+        elif err is None:
+            if not engine.rows_match([[engine.project_value(c) for c in r] for r in res], exp['out']):
+                sigs.append(dict(base, frontend='query_table', what='result rows', got=res, want=exp['out']))
+            if (names or None) != want_hdr:
+                sigs.append(dict(base, frontend='query_table', what='header', got=names, want=want_hdr))
+        if A and B:
+            err = None
+            try:
+                rdf = rbql_pandas.query_dataframe(qtext, pd.DataFrame(A, columns=c2['hdrA']), join_dataframe=pd.DataFrame(B, columns=c2['hdrB']))
+            except Exception as e:  # noqa
+                err = engine.project_error(eng, e)['cls']
+            nruns += 1
+            if (err or None) != (want_err or None):
+                sigs.append(dict(base, frontend='pandas', what='outcome', got=err, want=want_err))
+            elif err is None:
+                rows = [[engine.project_value(None if (isinstance(c, float) and c != c) else c) for c in r] for r in rdf.values.tolist()]
+                if not engine.rows_match(rows, exp['out']):
+                    sigs.append(dict(base, frontend='pandas', what='result rows', got=rows, want=exp['out']))
+                if want_hdr and [str(c) for c in rdf.columns] != want_hdr:
+                    sigs.append(dict(base, frontend='pandas', what='header', got=[str(c) for c in rdf.columns], want=want_hdr))
+        out.append((tid, sigs, nruns))
+    return out
+
+
 def run_family(run, label, queries, recsA, maxA, recsB='R_none', maxB=0, cli_every=7):
     d = tlcrun.new_scratch('c13')
     cfg = ec.engine_cfg(os.path.join(d, label + '.cfg'), queries, recsA, recsB, maxA, maxB, (False, True), (0,))
@@ -245,6 +334,12 @@ def run_family(run, label, queries, recsA, maxA, recsB='R_none', maxB=0, cli_eve
                                'stderr': c['stderr'][:160], 'query': c['q']}, {'kind': 'frontend_case', 'case': cases[tid]})
     run.notes.setdefault('cli_runs', 0)
     run.notes['cli_runs'] += len(clis)
+    if recsB != 'R_none':
+        shared = [(tid, case) for tid, case, _ in items if case['hasHdr']]
+        for tid, sigs, nruns in par.pmap(_shared_names, shared, chunk=40):
+            run.traces += nruns
+            for sig in sigs:
+                run.violation(sig, {'kind': 'frontend_case_shared_names', 'case': cases[tid]})
     return len(res.cases)
 
 
@@ -252,10 +347,11 @@ def check(run):
     quick = run.tier == 'quick'
     run.rule = ('case = (type-agnostic query over string cells: fields, literals, concatenation, comparisons, star forms, ORDER / DISTINCT / TOP, COUNT + GROUP BY, EXCEPT, UPDATE, joins, plus failing queries; rectangular '
                 'string table; header yes/no) enumerated by TLC with Ref and its text rendering Stringify; each run through query, query_table, query_csv, python -m rbql (file->file, stdin->stdout; out-format input/csv/tsv; '
-                'every k-th case), pandas, sqlite; evaluations = front-end runs; non-trivial = >= 2 input records and (>= 1 output row or an error)')
+                'every k-th case), pandas, sqlite; join cases also with both tables sharing their column names (query_table, pandas); 5 environment faults of the command line (missing input / join table, unwritable output, undecodable input); evaluations = front-end runs; non-trivial = >= 2 input records and (>= 1 output row or an error)')
     run.assumptions = ['cell strings are CSV-inert (letters and digits), so turning output text back into rows needs no dialect logic in the harness', 'pandas and sqlite need column names: header cases only']
     run_family(run, 'frontends', 'Q_C13', 'R_2x2p', 2 if quick else 3, cli_every=9 if quick else 5)
     run_family(run, 'frontends-join', 'Q_C13join', 'R_2x2', 2, recsB='R_2x2', maxB=2, cli_every=40 if quick else 10)
+    cli_environment_faults(run)
     ctl = core.Run(run.prop, run.tier, run.seed)
     if frontends.validate(ctl, 'cli', [{'tid': 'x', 'exit': 0, 'stdout_is_table': True, 'stderr_kinds': ['error'], 'outcome': 'ok'}], 'control') != {'x'}:
         core.machinery_failure('CliOk control trace accepted')
@@ -266,6 +362,15 @@ def replay(path):
     with open(path) as f:
         rep = json.load(f)
     run = core.Run('C13', 'quick', 0)
+    if rep['case']['kind'] == 'cli_fault':
+        cli_environment_faults(run)
+        return run.finish()
+    if rep['case']['kind'] == 'frontend_case_shared_names':
+        for tid, sigs, nruns in _shared_names([(1, rep['case']['case'])]):
+            run.traces += nruns
+            for sig in sigs:
+                run.violation(sig, rep['case'])
+        return run.finish()
     for tid, sigs, clis, nruns in _run_frontends([(1, rep['case']['case'], True)]):
         run.traces += nruns
         for sig in sigs:
